@@ -744,6 +744,11 @@ class Interp:
                 d.update(sub)
                 continue
             kk = self.ev(k, st)
+            if isinstance(kk, tuple) and any(is_sym(x) for x in kk):
+                if len(node.keys) != 1:
+                    raise Outside("dict display with several symbolic keys", node)
+                val = self.ev(v, st)
+                return CDict.fresh("dict", len(kk), val, empty=True).set(kk, val)
             if not isinstance(kk, (str, int, tuple)):
                 raise Outside("dict display with symbolic key", node)
             d[kk] = self.ev(v, st)
